@@ -1413,6 +1413,94 @@ fn main() {
             out.case(id, &coq, &tags, &d2, if orders > 1 { Some(fnv(d2.as_bytes())) } else { None });
         }
     }
+    // (8) search step of the reachability obligation (claimed_estimators_do_not_reach_excluded_facilities): the translator
+    //     lists every library-code reference to a facility the statement excludes; for a reference from outside the
+    //     facility's home a targeted scenario is derived from the call site's guard and run on several pool sizes
+    {
+        let reach = args.out.ancestors().nth(3).map(|b| b.join("c20_reach.json"));
+        let table: Option<serde_json::Value> = reach.as_ref().and_then(|p| std::fs::read_to_string(p).ok()).and_then(|t| serde_json::from_str(&t).ok());
+        let fresh = match (&table, std::env::var("VERIF_REPO")) { (Some(t), Ok(repo)) => t["repo"].as_str() == Some(repo.as_str()), (Some(_), Err(_)) => true, _ => false };
+        let homes: [(&str, &[&str]); 5] = [
+            ("kmeans_para", &["algorithms/linfa-clustering/src/k_means/"]), ("fastica", &["algorithms/linfa-ica/"]), ("tsne", &["algorithms/linfa-tsne/"]),
+            ("p_values", &["src/correlation.rs"]), ("unseeded_rng", &["src/correlation.rs", "algorithms/linfa-ica/src/fast_ica.rs", "datasets/src/generate.rs"]),
+        ];
+        let budget = std::time::Duration::from_secs(if thorough { 240 } else { 60 });
+        let t_start = std::time::Instant::now();
+        if let (true, Some(t)) = (fresh, &table) {
+            for (ri, rf) in t["refs"].as_array().cloned().unwrap_or_default().iter().enumerate() {
+                let g = |k: &str| rf[k].as_str().unwrap_or("").to_string();
+                let (fac, file, ty, func, guard) = (g("facility"), g("file"), g("ty"), g("fn"), g("guard"));
+                if homes.iter().any(|(f, hs)| *f == fac && hs.iter().any(|h| file.starts_with(h))) { continue; }
+                let rid = 200_000 + ri as u64;
+                if !out.wanted(rid) { continue; }
+                out.bump("reach_reference_outside_home");
+                let site = format!("{{\"facility\": {}, \"file\": {}, \"line\": {}, \"item\": {}, \"guard\": {}}}", jstr(&fac), jstr(&file), rf["line"], jstr(&format!("{}::{}", ty, func)), jstr(&guard));
+                if !(fac == "kmeans_para" && file.contains("gaussian_mixture")) {
+                    eprintln!("note: reference {} has no targeted scenario family in the harness (reported through the proof obligation only)", site);
+                    out.bump("reach_reference_without_targeted_scenario");
+                    continue;
+                }
+                // read `<ident> <cmp> <literal>` off the guard: the smallest value of the guarded quantity that takes the branch
+                let negated = guard.starts_with("!(");
+                let mut ks: Vec<usize> = vec![];
+                for cmp in [">=", "<=", "==", ">", "<"] {
+                    if let Some(p) = guard.find(cmp) {
+                        let lit: String = guard[p + cmp.len()..].trim_start().chars().take_while(|c| c.is_ascii_digit() || *c == '_').filter(|c| *c != '_').collect();
+                        if let Ok(v) = lit.parse::<usize>() {
+                            let takes = match (cmp, negated) { (">", false) | ("<=", true) => v + 1, (">=", false) | ("<", true) | ("==", false) | ("<=", false) | (">", true) => v, ("<", false) | (">=", true) => v.saturating_sub(1), _ => v + 1 };
+                            ks.push(takes.max(1));
+                            ks.push(takes.max(1) + 27);
+                        }
+                        break;
+                    }
+                }
+                if ks.is_empty() { ks = vec![2, 64, 129]; }
+                let pools: Vec<(usize, rayon::ThreadPool)> = [1usize, 4, 4, 2].iter().map(|t| (*t, rayon::ThreadPoolBuilder::new().num_threads(*t).build().unwrap())).collect();
+                let mut found: Option<(u64, String, String)> = None;
+                let mut tried = 0;
+                'search: for attempt in 0..40u64 {
+                    for &k in &ks {
+                        if t_start.elapsed() > budget { break 'search; }
+                        let n = 4 * k + 200 + 150 * attempt as usize;
+                        let dseed = r.next();
+                        let x = mat(&blobs(&mut Sm64::new(dseed), n, 2, 8, 1.5));
+                        let gseed = r.below(1000);
+                        let desc = format!(
+                            "{{\"case\": \"targeted search: an estimator of the claim refers to an excluded facility\", \"call_site\": {}, \"estimator\": \"GaussianMixtureModel\", \"n_clusters\": {}, \"data\": \"blobs(Sm64::new({}), n={}, d=2, centres=8, spread=1.5)\", \"init\": \"KMeans (default)\", \"rng\": \"Xoshiro256Plus::seed_from_u64({})\", \"n_runs\": 1, \"max_n_iterations\": 2, \"tolerance\": 1e6, \"reg_covariance\": 1e-2, \"pools\": [1, 4, 4, 2]}}",
+                            site, k, dseed, n, gseed
+                        );
+                        let mut obs: Vec<(usize, String)> = vec![];
+                        for (t, pool) in &pools {
+                            let xx = x.clone();
+                            let res = pool.install(|| guarded(std::panic::AssertUnwindSafe(|| -> Result<String, String> {
+                                let ds = DatasetBase::from(xx.clone());
+                                let m = GaussianMixtureModel::params_with_rng(k, Xoshiro256Plus::seed_from_u64(gseed)).n_runs(1).max_n_iterations(2).tolerance(1e6).reg_covariance(1e-2).fit(&ds).map_err(es)?;
+                                Ok(format!("{}|{}", jcanon(&m), us(m.predict(&xx).iter())))
+                            })));
+                            obs.push((*t, match res { Ok(Ok(t)) => t, Ok(Err(e)) => format!("ERROR: {}", e), Err(p) => format!("PANIC: {}", p) }));
+                        }
+                        tried += 1;
+                        out.rust_eval(&desc, Some(fnv(desc.as_bytes())));
+                        if let Some((t2, txt)) = obs.iter().skip(1).find(|o| o.1 != obs[0].1) {
+                            let code = if obs[1].1 != obs[2].1 { 1 } else { 2 };
+                            found = Some((code, format!("seeded GaussianMixtureModel fit with {} components differs between a pool of {} thread(s) and a pool of {} thread(s);{}", k, obs[0].0, t2, first_diff(&obs[0].1, txt)), desc));
+                            break 'search;
+                        }
+                    }
+                }
+                out.bump_by("reach_targeted_scenarios_run", tried);
+                match found {
+                    Some((code, what, desc)) => {
+                        out.bump("reach_targeted_difference_found");
+                        out.rust_fail(rid, code, &["reach", "targeted_search", "kmeans_para"], &format!("reference to {} in {} ({}::{}, guard [{}]): {}", fac, file, ty, func, guard, what), &desc);
+                    }
+                    None => eprintln!("note: targeted search for {} found no run-to-run difference in {} scenario(s) within {:?}", site, tried, budget),
+                }
+            }
+        } else if table.is_some() {
+            eprintln!("note: {:?} was written for another repository checkout; search step skipped", reach);
+        }
+    }
     out.bump_by("child_processes", child_out.len() as u64);
     out.finish("scenario = estimator x generated dataset x parameters (tree / naive Bayes / hierarchical inputs are tie-heavy: duplicated rows with conflicting labels, identical classes, lattice distances); every scenario is run twice on the global pool, on pools of 1/2/5/16 threads (thorough: 1,2,3,5,7,11,16) and in fresh processes with RAYON_NUM_THREADS in {1,2,3,5,8,16} (thorough: 1..16); all learned quantities and predictions are compared bit for bit; Coq cases: observed hash-map entry lists, k-means task schedules and the vocabulary orders / transformed rows of repeated count-vectoriser fits; a case is non-trivial when it has ties / several threads / a permuted schedule; distinct = distinct scenario descriptions");
 }
